@@ -272,7 +272,7 @@ for rec in ['StorageHints', 'ClassType', 'Question', 'RR', 'QueryResponseSignatu
     R(rec, props=('C08', 'C03') + (('C09',) if rec in PRE else ('C01',)))
 for rec, n in LISTY.items():
     for k in range(1, n + 1):
-        RA(rec, k, ('C08', 'C09', 'C03'))
+        RA(rec, k, ('C08', 'C09', 'C03', 'C05'))
 
 # ---------------------------------------------------------------- CdnsReader::read_block (C05: a decoder error is never swallowed)
 RB_C = '''
